@@ -277,6 +277,9 @@ def check(case, rec):
             elif bad == 'length1' and v.ndim: wrong = v[..., :1] if v.shape[-1] > 1 else None
             elif bad == 'transposed' and v.ndim == 2 and v.shape[0] != v.shape[1]: wrong = v.T
             elif bad == 'dtype-complex': wrong = v + 1j
+            if wrong is not None and numpy.array_equal(reference({**A, n: v + 1.375}), want):
+                # the argument cancels out of the expression (u - u): its value is never read, so there is nothing to broadcast or to reject
+                rec.label('rejection-skipped:argument-cancels'); wrong = None
             if wrong is not None:
                 try:
                     r = function.eval(target, arguments={**A, n: wrong})
